@@ -276,7 +276,7 @@ impl FileSet {
     }
 }
 
-const NASTY: &[&str] = &["", "0", "-1", "1", "2", "3", "4", "5", "6", "7", "8", "15", "16", "17", "18", "19", "255", "256", "32767", "32768", "-32768", "-32769", "65534", "65535", "65536", "65537", "131072", "4294967296", "99999999999999999999", "abc", "1e3", "+1", " 1", "1 ", "0x10", "NOPE", "DEFAULT", "SPACE", "*", "\"", "\"\"", "a,b", "0x0041", "0x0041..0x0040", "0x10000", "0xFFFF..0x10000", "0xZZ", "#", "1.5", "-0", "００"];
+const NASTY: &[&str] = &["", "0", "-1", "1", "2", "3", "4", "5", "6", "7", "8", "15", "16", "17", "18", "19", "255", "256", "32767", "32768", "-32768", "-32769", "65534", "65535", "65536", "65537", "131072", "4294967296", "99999999999999999999", "abc", "1e3", "+1", " 1", "1 ", "0x10", "NOPE", "DEFAULT", "SPACE", "*", "\"", "\"\"", "a,b", "0x0041", "0x0041..0x0040", "0x3041..0", "0x3041..あ", "0x41..", "..0x41", "0x", "0x..0x", "0x41...0x42", "0x10000", "0xFFFF..0x10000", "0xZZ", "#", "1.5", "-0", "００"];
 
 fn mutate_text(rng: &mut Rng, data: &[u8], seps: &[char]) -> (Vec<u8>, String) {
     let text = String::from_utf8_lossy(data).to_string();
@@ -980,7 +980,14 @@ fn c19_cli(ctx: &mut Ctx, rng: &mut Rng, cli: &str, xdir: &str) {
         // U+FEFF is a character like any other, also at the very start of the input
         lines[0] = format!("{}{}", '\u{FEFF}', lines[0]);
     }
-    let input = lines.join("\n") + "\n";
+    // half of the inputs end without a line feed after their last (non-empty) line
+    let no_final_lf = rng.chance(0.5);
+    if no_final_lf {
+        let last = lines.iter().find(|l| l.chars().count() >= 2 && !l.trim().is_empty()).cloned().unwrap_or_else(|| "ab".to_string());
+        lines.push(last);
+        ctx.bucket("cli_input_without_final_line_feed");
+    }
+    let input = lines.join("\n") + if no_final_lf { "" } else { "\n" };
     w("input.txt", input.as_bytes());
     let mut t = Command::new(format!("{cli}/tokenize"));
     t.args(["-i", &format!("{dir}/sys.dic.zst"), "-O", "mecab"]);
@@ -1050,6 +1057,7 @@ pub fn c20_case(ctx: &mut Ctx, rng: &mut Rng) {
     for i in 0..k {
         let mk = |rng: &mut Rng, s: char| -> String {
             match rng.below(8) {
+                7 if rng.chance(0.5) => format!("B{i}:%{s}[{}],%{s}?[{}]", rng.below(3), 10 + rng.below(2)), // two-digit column indices
                 7 => format!("%{s}[{}]", rng.below(2)), // no literal prefix: BOS/EOS expands to the empty text
                 0 => format!("B{i}:%{s}[0]"),
                 1 => format!("B{i}:%{s}[0],%{s}[1]"),
@@ -1071,7 +1079,9 @@ pub fn c20_case(ctx: &mut Ctx, rng: &mut Rng) {
     let gen_ids = |rng: &mut Rng, n: usize| -> Vec<Vec<String>> {
         let mut v = vec![vec!["BOS/EOS".to_string(), "*".to_string(), "*".to_string()]];
         for _ in 1..n {
-            v.push((0..2 + rng.below(2)).map(|_| rng.pick(&vocab).to_string()).collect());
+            // 2-3 columns, now and then 11-12 (UniDic-sized rows)
+            let cols = if rng.chance(0.2) { 11 + rng.below(2) } else { 2 + rng.below(2) };
+            v.push((0..cols).map(|_| rng.pick(&vocab).to_string()).collect());
         }
         v
     };
